@@ -136,11 +136,15 @@ pub fn pool(rng: &mut Rng) -> Vec<Call> {
         calls.push(Call::Parse(comp.clone()));
         let tgt = Name(vec![b"renamed".to_vec(), b"net".to_vec()]).to_wire();
         calls.push(Call::Rename(comp.clone(), tgt, zone.to_wire(), true));
-        if i % 3 == 0 {
-            // a hostile input among them
+        // hostile inputs of the SAME length among them (a verdict must not be inherited from a look-alike)
+        for _ in 0..3 {
             let mut bad = comp.clone();
             let k = rng.range(12, bad.len() - 1);
-            bad[k] ^= 0xc0;
+            bad[k] = match rng.below(3) {
+                0 => bad[k] ^ 0xc0,
+                1 => b'.',
+                _ => 0x40,
+            };
             calls.push(Call::Parse(bad));
         }
     }
@@ -162,6 +166,25 @@ pub fn pool(rng: &mut Rng) -> Vec<Call> {
         calls.push(Call::Synth("broken 300 IN A 1.2.3".into()));
         let ztxt: String = zone.0.iter().map(|l| l.iter().map(|&c| if c.is_ascii_alphanumeric() { c as char } else { 'x' }).collect::<String>()).collect::<Vec<_>>().join(".");
         calls.push(Call::Synth(format!("{}. 300 IN NS ns1", ztxt)));
+    }
+    // two packets with more than 32 distinct suffixes sharing most of their names (the suffix table wraps)
+    {
+        let many: Vec<Name> = (0..rng.range(36, 48)).map(|i| Name(vec![format!("h{}", i).into_bytes(), gen_label(rng, &cfg)]).concat(&zone)).collect();
+        for variant in 0..2 {
+            let mut m = Msg { id: rng.u16(), flags: 0x8180, ..Default::default() };
+            m.question.push(Question { name: many[variant].clone(), qtype: 1, qclass: 1 });
+            for (i, n) in many.iter().enumerate() {
+                if (i + variant) % 7 != 0 {
+                    m.sec[i % 3].push(Record { name: n.clone(), rtype: T_A, class: 1, ttl: i as u32, rdata: RData::A([10, 1, 1, i as u8]) });
+                }
+            }
+            for n in many.iter().rev().take(12) {
+                m.sec[1].push(Record { name: n.clone(), rtype: T_NS, class: 1, ttl: 7, rdata: RData::Name(many[3].clone()) });
+            }
+            let lit = m.encode_literal();
+            calls.push(Call::Compress(lit.clone()));
+            calls.push(Call::Rename(lit, Name::from_labels(&[b"moved", b"org"]).to_wire(), zone.to_wire(), true));
+        }
     }
     // the same text names with different default zones, and with none
     for n in [&b"ns1"[..], b"www", b"ns1.", b"a.b"] {
